@@ -378,9 +378,10 @@ def ops_webrtc(rng):
             ops.append("wnext")
         else:
             cur = rng.choice([main] + fb)
+            near = rng.choice([cur[:max(1, len(cur) - 1)], cur + b"x", cur[:1], cur + b"/"])     # a prefix / an extension
             choices = [[("header",)], [("header",), ("proto", cur)], [("header",), ("na",)], [("proto", cur)], [("na",)],
                        [("ls",)], [("header",), ("header",)], [("proto", b"/other")], [("protos", [cur])], [],
-                       [("header",), ("na",), ("proto", cur)]]
+                       [("header",), ("na",), ("proto", cur)], [("header",), ("proto", near)], [("proto", near)]]
             p = wmsgs(rng, rng.choice(choices))
             r = rng.random()
             if r < 0.1 and p:
@@ -524,6 +525,7 @@ def first_frame_is_message(b):
 
 def oracle(case, out):
     bad = []
+    wcur, wrest = None, []       # the message-based dialer of the case: name being proposed, fallbacks left
 
     def v(kind, msg, i):
         bad.append({"kind": kind, "msg": msg, "step": i, "op": case[i][:300], "out": (out[i] if i < len(out) else None)})
@@ -584,6 +586,28 @@ def oracle(case, out):
                     v("disagree", f"reported a protocol that was never offered: {r.get('r')}", i)
                 elif frame(name + b"\n") not in unhx(a.get("peer", "-")):
                     v("disagree", f"reported {r.get('r')} although the peer never sent that name", i)
+        elif t[0] == "wpropose":
+            if o.startswith("ok:"):
+                m_ = unhl(a.get("main", "-"))
+                wcur, wrest = (m_[0] if m_ else b""), unhl(a.get("fb", "-"))
+        elif t[0] == "wnext":
+            if (o.startswith("some:") or o.startswith("err:")) and wrest:
+                wcur, wrest = wrest[0], wrest[1:]
+        elif t[0] == "wresp":
+            if o.startswith("succeeded:") and wcur is not None:
+                got = unhx(o.split(":", 1)[1])
+                pay = unhx(t[1]) if len(t) > 1 else b""
+                if got != wcur:
+                    v("webrtc-unsafe", f"dialer proposing {wcur!r} reports success for {got!r}", i)
+                elif frame(wcur + b"\n") not in pay:
+                    v("webrtc-unsafe", f"dialer proposing {wcur!r} reports success although the peer never confirmed that name", i)
+        elif t[0] == "wlisten":
+            if o.startswith("accepted:"):
+                got = unhx(o.split(":")[1])
+                if got not in unhl(a.get("sup", "-")):
+                    v("webrtc-unsafe", f"listener accepted {got!r}, which it does not support", i)
+                elif frame(got + b"\n") not in unhx(a.get("payload", "-")):
+                    v("webrtc-unsafe", f"listener accepted {got!r}, which was never proposed", i)
         elif t[0] == "report":
             if o == "bad-op":
                 continue
